@@ -2,6 +2,7 @@
   C07 — duplicate-lock detection is exact.
 -/
 import HLV.Logic.Order
+import HLV.Static.Rules
 namespace HLV
 
 /-- on a list sorted by ≤, "no two adjacent elements are equal" is "strictly increasing" -/
@@ -129,5 +130,14 @@ example : tryNewSorted { addr := fun x => x } (.seq [.mutex 3, .mutex 1, .retry 
 example : tryNewRetry { addr := fun x => x } (.seq [.mutex 3, .mutex 1, .retry (.seq [.mutex 2, .mutex 3])]) = false := by decide
 example : tryNewSorted { addr := fun x => 9 - x } (.seq [.mutex 3, .mutex 1, .retry (.seq [.mutex 2, .mutex 0])]) = true := by
   rw [C07_sorted_check_is_exact]; decide
+
+/-! ### the compile-time half, over the fact table regenerated from the source -/
+section
+open HLV.Static HLV.Gen
+set_option maxRecDepth 1000000
+-- @theorem C07_unchecked_constructors_only_for_owned_inputs : (table theorem, regenerated from the source on every run) the constructors that skip the duplicate test (new, new_ref, From, FromIterator, Default, Extend …) require OwnedLockable inputs or are unsafe, and OwnedLockable is implemented only for types that own their locks (no shared reference, containers and wrappers only over OwnedLockable elements): a lock cannot be given twice to an unchecked constructor in safe code
+theorem C07_unchecked_constructors_only_for_owned_inputs :
+    c15_uncheckedConstructors = [] ∧ c15_ownedLockable = [] := by decide +kernel
+end
 
 end HLV
